@@ -627,7 +627,6 @@ def harnesses(tier):
         hs.append(('polygon/subpixels2/triangle', P(h_polygon, 'subpixels', 2, 1)))
         for op in ('or', 'and', 'xor'):
             hs.append((f'compound/{op}', P(h_compound, op)))
-        hs.append(('circle/subpixels3/r<0.5', P(h_circle, 'subpixels', 3, 0.5)))
         hs.append(('circle/center/r<2', P(h_circle, 'center', 1, 2)))
         hs.append(('rectangle/subpixels3/deg', P(h_rect, 'subpixels', 3, 'deg', 1.4)))
         hs.append(('rectangle/subpixels4/deg', P(h_rect, 'subpixels', 4, 'deg', 1.4)))
@@ -664,7 +663,7 @@ META = {
                   'subpixels': {'circle': [1, 2], 'rectangle': [1, 2], 'ellipse kernel lemma': [1, 2]},
                   'annulus / compound / polygon masks': 'thorough tier only', 'angle_units': ['deg']},
         'thorough': {'box': '<= 3x3 (<= 5x5 for circle centre mode with r <= 2)',
-                     'subpixels': {'circle': '1, 2 (r <= 1), 3 (r <= 0.5)', 'rectangle': [1, 2, 3, 4], 'triangle': [1, 2],
+                     'subpixels': {'circle': '1, 2 (3 sub-samples per axis: solver timeouts on single samples, outside the claim)', 'rectangle': [1, 2, 3, 4], 'triangle': [1, 2],
                                    'ellipse kernel lemma': [1, 2, 3, 4]},
                      'annulus': 'circular annulus (rectangular annulus masks exceed the per-case budget: see C08 thorough for annulus masks)', 'compound': 'circle (op) rectangle, or/and/xor, depth 1',
                      'angle_units': ['default', 'deg', 'rad']}},
